@@ -561,7 +561,7 @@ package table
 //@   tag C06
 //@   requires m != nil
 //@   claims at-call
-//@   at-call append(pathList, p) requires p != nil ==> p.remoteID == nlri.ID && (treatAsWithdraw ==> p.IsWithdraw)
+//@   at-call append(pathList, requires len(arg1) == 1 && (arg1[0] != nil ==> arg1[0].remoteID == nlri.ID && (treatAsWithdraw ==> arg1[0].IsWithdraw))
 
 // from C10 "conditions ... evaluated per the documented model": a prefix-set entry matches a route when it covers the
 // route's prefix and the route's mask length is within the entry's range - ANY covering entry, so the decision is
